@@ -10,4 +10,5 @@ import Simfile.Spec.Timeline
 import Simfile.Spec.Notes
 import Simfile.Spec.Group
 import Simfile.Model.Load
+import Simfile.Model.Msd
 import Simfile.Driver
